@@ -302,3 +302,35 @@ Example C08_handover_premises_satisfiable :
     stored (do_step wit_hash no_slices (run wit_hash no_slices w1 ex_after) (SSet false 100)) (hw_key 2 1) = None /\
     stored (do_step wit_hash no_slices (run wit_hash no_slices w1 ex_after) (SSet false 100)) (hw_key 2 3) <> None.
 Proof. exact handover_premises_satisfiable. Qed.
+
+(** (iii) Towards the invariant "Paused=True confirmed => status.controllerOf covers what the revision controls": REFUTED as stated
+    (C08_handover_refuted_truncated, C08_handover_refuted_cache_label give reachable states with Paused=True stored, the spec
+    paused or archived, and a controlled object missing from controllerOf). Proved are the two status lemmas every step of such an
+    invariant rests on; the per-step preservation theorem itself (C08_paused_controllerof_invariant) is NOT proved.
+    (a) A deployment pass (any fault, stale or fresh) never writes an ObjectSet's status: every ObjectSet afterwards is new (empty
+    status) or an old one with identity, conditions, controllerOf, revision, phases and previous list unchanged, whose
+    lifecycle state is the old one or that of an Update request of the pass. *)
+Theorem C08_status_after_deployment_pass :
+  forall hash fault slices stale w w' evs r,
+    dep_pass hash fault slices stale w = (w', evs, r) ->
+    forall x', In x' (dw_sets w') ->
+      (exists x, In x (dw_sets w) /\ sstat x' = sstat x /\
+                 (slife x' = slife x \/ exists pbp ur, In (DUpdate (sname x') (slife x') pbp ur) evs)) \/
+      (sconds x' = [] /\ os_ctrlof (ds_set x') = []).
+Proof. exact (fun hash fault slices => dep_pass_status hash fault slices true true). Qed.
+Print Assumptions C08_status_after_deployment_pass.
+
+(** (b) A pass of the ObjectSet controller (active, paused, archival or deletion) changes the stored status of its own ObjectSet
+    only: Paused=True is newly written only for a paused spec, and status.controllerOf afterwards is the old list, empty, or the
+    list the phase loop of this pass computed ([loop_ctrlof]: from the store as it was when the pass started). *)
+Theorem C08_status_after_objectset_pass :
+  forall force sw k ns n mem0 sw' evs r,
+    find_set (sw_sets sw) k ns n = Some mem0 -> NoDup (map (fun y => oi_name (os_id y)) (sw_sets sw)) ->
+    objectset_pass force sw k ns n = (sw', evs, r) ->
+    forall y, In y (sw_sets sw') ->
+      In y (sw_sets sw) \/
+      (os_id y = os_id mem0 /\ os_life y = os_life mem0 /\ os_phases y = os_phases mem0 /\ os_prev y = os_prev mem0 /\
+       (cond_true (os_conds y) CPaused = true -> cond_true (os_conds mem0) CPaused = true \/ os_life mem0 = LPaused) /\
+       (os_ctrlof y = os_ctrlof mem0 \/ os_ctrlof y = [] \/ loop_ctrlof force sw mem0 (os_ctrlof y))).
+Proof. exact status_after_pass. Qed.
+Print Assumptions C08_status_after_objectset_pass.
